@@ -39,6 +39,7 @@ def check(run):
         run.guard("C01.3.exhaustive-probing", cfg, lambda: rule_exhaustive(run, F, cfg))
         run.guard("C01.4.token-boundary", cfg, lambda: rule_boundary(run, F, cfg))
         run.guard("C01.5.routing-total", cfg, lambda: rule_routing(run, F, cfg))
+        run.guard("C01.1.token-source", cfg + "/removeparam", lambda: rule_removeparam_tokens(run, F, cfg))
         b = run.borrow("C05", why="a fused rule must still be found for every request one of its members matches")
         run.guard("C01.via.C05.1.fusion-key", cfg, lambda: _C05.rule_key(b, F, cfg))
         run.guard("C01.via.C05.2.bucket-preservation", cfg, lambda: _C05.rule_bucket(b, F, cfg))
@@ -334,3 +335,33 @@ def rule_routing(run, F, cfg):
     want = set(R.BLOCKER_LISTS)
     run.ob("C01.5.routing-total", "every-list-probed", want <= probed,
            f"every Blocker list is probed by some query function (unprobed: {sorted(want - probed)})", config=cfg)
+
+
+def rule_removeparam_tokens(run, F, cfg):
+    """get_tokens may index a rule under tokens of its modifier option only for removeparam rules (whose
+    option is the parameter NAME, which occurs in the URL whenever the rule has any effect), lower-cased like
+    the request URL, and only for names the request tokenizer would reproduce (VALID_PARAM)."""
+    g = F.fn("filters::network::NetworkFilter::get_tokens")
+    run.touched(g)
+    from analysis.guards import dominating_conditions as _dc
+    sites = []
+    for b, t in g.calls(r"^utils::tokenize(_filter)?$"):
+        e = g.vexpr_call(t)
+        if "modifier_option" in e or "$removeparam" in e:
+            sites.append((b, e, _dc(g, b, render=g.vexpr_operand)))
+    # every use of the modifier option as a token source
+    ok = len(sites) == 1
+    detail = ""
+    if ok:
+        b, e, c = sites[0]
+        short = {re.sub(r"filters::network::(_::|NetworkFilterMask::)?", "", k): v for k, v in c.items()}
+        need = [("contains($self.mask, IS_REMOVEPARAM)", 1), ("discr($self.modifier_option)", 1)]
+        have_valid = any(re.search(r"Regex::is_match\(.*VALID_PARAM\), .*\$removeparam\)", k) and v == 1 for k, v in short.items())
+        lower = "to_ascii_lowercase(" in e or "to_lowercase(" in e
+        ok = all(short.get(k) == v for k, v in need) and have_valid and lower
+        detail = f"{e[:160]} under {sorted(short.items())[:6]}"
+    run.ob("C01.1.token-source", "removeparam-name-tokens", ok,
+           "get_tokens tokenizes the modifier option only as lower-cased removeparam name: guarded by "
+           "mask.contains(IS_REMOVEPARAM), modifier_option being Some and VALID_PARAM.is_match (a redirect name "
+           "or csp text used as bucket key would hide the rule from every request)",
+           site=g.loc(sites[0][0]) if sites else g.loc(0), config=cfg, detail=detail)
